@@ -15,7 +15,7 @@ import Cirbo.Proofs.RemoveGate
 -- OBLIGATION: c02_left_connection_invariant
 -- OBLIGATION: c02_rename_gate_invariant
 -- OBLIGATION: c02_history_extended
--- PARTIAL: the invariant theorem covers add_gate/emplace_gate, add_inputs, mark_as_output, set_outputs, set_inputs, order_inputs, order_outputs, replace_inputs, make_block, delete_block, remove_gate, rename_gate, copy, make_block_from_slice and every left connection (connect_circuit(right_connect=False), connect_left, extend_circuit, add_circuit) — and into_bench's netlist part in C14. remove_block, the right-connect direction (connect_right, connect_inputs), replace_subcircuit and into_bench's users-index edits are modelled one-to-one (Model/Mutate.lean, Mutate2.lean) and compared field by field with the code after every call of random histories, and every state the code produces goes through the Lean checker checkWFU, but their invariant lemmas are not proved yet. "A copy is equal to its original" and "shares no mutable state" are correspondence-only (Lean values cannot alias).
+-- PARTIAL: the invariant theorem covers add_gate/emplace_gate, add_inputs, mark_as_output, set_outputs, set_inputs, order_inputs, order_outputs, replace_inputs, make_block, delete_block, remove_gate, rename_gate, copy, make_block_from_slice and every left connection (connect_circuit(right_connect=False), connect_left, extend_circuit, add_circuit) — and into_bench (C14: c14_into_bench_keeps_invariant). remove_block, the right-connect direction (connect_right, connect_inputs), replace_subcircuit are modelled one-to-one (Model/Mutate.lean, Mutate2.lean) and compared field by field with the code after every call of random histories, and every state the code produces goes through the Lean checker checkWFU, but their invariant lemmas are not proved yet. "A copy is equal to its original" and "shares no mutable state" are correspondence-only (Lean values cannot alias).
 -/
 namespace Cirbo
 
